@@ -553,7 +553,7 @@ def exhaustive_space():
 def run(ctx):
     ctx.rule = RULE
     rng = ctx.rng
-    n = ctx.n(2000, 120000)
+    n = ctx.n(2000, 350000)
     for i in range(n):
         sc = gen_scenario(rng, 'v2' if i % 2 == 0 else 'v1')
         R, S = execute(sc)
